@@ -321,11 +321,18 @@ class PathResolver:
 
 def sym_paths(fn: T.Union[ast.FunctionDef, ast.AsyncFunctionDef], *, body: T.Optional[T.List[ast.stmt]] = None,
               unroll: int = 1, handlers: bool = False, pure: T.Optional[T.Set[str]] = None,
-              helpers: T.Optional[T.Dict[str, ast.FunctionDef]] = None) -> T.List[SymPath]:
+              helpers: T.Optional[T.Dict[str, ast.FunctionDef]] = None, mod: T.Any = None) -> T.List[SymPath]:
     out = []
     stmts = body if body is not None else fn.body
     if helpers:
         stmts = inline_helpers(list(stmts), {k: v for k, v in helpers.items() if v is not fn})
+    if mod is not None and any(isinstance(n, ast.For) for s_ in stmts for n in ast.walk(s_)):
+        def lookup(name: str) -> T.Optional[ast.AST]:
+            try:
+                return mod.assign_value(name) if mod.has_assign(name) else None
+            except Exception:
+                return None
+        stmts = unroll_table_loops(list(stmts), lookup)
     for p in enumerate_paths(stmts, unroll=unroll, handlers=handlers, pure=pure or set()):
         out.append(PathResolver(SymPath(p)).run())
     return out
@@ -484,3 +491,84 @@ def private_helpers(cls: ast.ClassDef, stop: T.Iterable[str] = ()) -> T.Dict[str
     stop = set(stop)
     return {s.name: s for s in cls.body if isinstance(s, ast.FunctionDef) and s.name.startswith('_') and not s.name.startswith('__') and s.name not in stop
             and not s.decorator_list}
+
+
+# ---------------------------------------------------------------------------
+# loops driven by a constant table (policy form c: a finite domain the source declares): unrolled before path enumeration
+# ---------------------------------------------------------------------------
+
+def _table_rows(value: ast.AST) -> T.Optional[T.List[T.List[ast.AST]]]:
+    """Rows of a constant display: tuple/list of tuples (or scalars), or a dict display (rows are [key, value])."""
+    def simple(e: ast.AST) -> bool:
+        return isinstance(e, ast.Constant) or attr_chain(e) is not None
+    if isinstance(value, (ast.Tuple, ast.List)):
+        rows = []
+        for el in value.elts:
+            if isinstance(el, (ast.Tuple, ast.List)) and all(simple(x) for x in el.elts):
+                rows.append(list(el.elts))
+            elif simple(el):
+                rows.append([el])
+            else:
+                return None
+        return rows
+    if isinstance(value, ast.Dict) and all(k is not None and simple(k) and simple(v) for k, v in zip(value.keys, value.values)):
+        return [[k, v] for k, v in zip(value.keys, value.values)]       # type: ignore[list-item]
+    return None
+
+
+class _Subst(ast.NodeTransformer):
+    def __init__(self, mapping: T.Dict[str, ast.AST]):
+        self.mapping = mapping
+
+    def visit_Name(self, n: ast.Name) -> ast.AST:
+        if isinstance(n.ctx, ast.Load) and n.id in self.mapping:
+            return ast.copy_location(_copy.deepcopy(self.mapping[n.id]), n)
+        return n
+
+
+def unroll_table_loops(body: T.List[ast.stmt], lookup: T.Callable[[str], T.Optional[ast.AST]], limit: int = 12) -> T.List[ast.stmt]:
+    """`for a, b in TABLE: BODY` with TABLE a module/class-level constant display -> BODY once per row, the loop variables replaced by the row's
+    entries (only when BODY neither breaks/continues nor re-binds the loop variables, and the loop has no else)."""
+    out: T.List[ast.stmt] = []
+    for st in body:
+        new: ast.stmt = st
+        if isinstance(st, (ast.If, ast.For, ast.AsyncFor, ast.While, ast.With, ast.AsyncWith, ast.Try)):
+            new = _copy.copy(st)
+            for field in ('body', 'orelse', 'finalbody'):
+                sub = getattr(st, field, None)
+                if isinstance(sub, list) and sub and isinstance(sub[0], ast.stmt):
+                    setattr(new, field, unroll_table_loops(sub, lookup, limit))
+            if isinstance(st, ast.Try):
+                hs = []
+                for h in st.handlers:
+                    h2 = _copy.copy(h)
+                    h2.body = unroll_table_loops(h.body, lookup, limit)
+                    hs.append(h2)
+                new.handlers = hs      # type: ignore[attr-defined]
+        if isinstance(new, ast.For) and not new.orelse:
+            it = new.iter
+            dict_items = False
+            if isinstance(it, ast.Call) and isinstance(it.func, ast.Attribute) and it.func.attr == 'items' and not it.args:
+                it, dict_items = it.func.value, True
+            name = attr_chain(it)
+            value = lookup(name) if name and '.' not in name else None
+            rows = _table_rows(value) if value is not None else None
+            if rows is not None and dict_items != isinstance(value, ast.Dict):
+                rows = None if dict_items else ([[r[0]] for r in rows] if isinstance(value, ast.Dict) else rows)
+            targets = [new.target] if isinstance(new.target, ast.Name) else list(new.target.elts) if isinstance(new.target, (ast.Tuple, ast.List)) else []
+            ok = rows is not None and 0 < len(rows) <= limit and targets and all(isinstance(t, ast.Name) for t in targets) and all(len(r) == len(targets) for r in rows)
+            if ok:
+                tnames = {t.id for t in targets}       # type: ignore[attr-defined]
+                for n in ast.walk(ast.Module(body=new.body, type_ignores=[])):
+                    if isinstance(n, (ast.Break, ast.Continue)) or (isinstance(n, ast.Name) and isinstance(n.ctx, (ast.Store, ast.Del)) and n.id in tnames):
+                        ok = False
+            if ok:
+                for r in rows:      # type: ignore[union-attr]
+                    mapping = {t.id: e for t, e in zip(targets, r)}       # type: ignore[attr-defined]
+                    for s in new.body:
+                        s2 = _Subst(mapping).visit(_copy.deepcopy(s))
+                        ast.fix_missing_locations(s2)
+                        out.append(s2)
+                continue
+        out.append(new)
+    return out
